@@ -632,8 +632,9 @@ static const char *targets[] = {
     "{}",
     "[[],[[]]]",
     "{\"0\":[0],\"1\":{\"0\":\"z\"}}",
+    "[0,1,2,3,4,5,6,7,8,9,10,11]", /* two-digit indices */
 };
-#define NTARGETS 10
+#define NTARGETS 11
 
 static V *parse_v(const char *t)
 {
@@ -678,7 +679,11 @@ static void fam_sequences(void)
 		va_reset();
 		V *doc = parse_v(targets[t]);
 		V *chosen[4];
-		seq_rec(doc, doc, chosen, 0, maxdepth, maxdepth >= 3);
+		/* the wide array has a large menu: reduced menu, and one level less in the quick tier */
+		if (t == NTARGETS - 1)
+			seq_rec(doc, doc, chosen, 0, mc_tier ? 2 : 1, 1);
+		else
+			seq_rec(doc, doc, chosen, 0, maxdepth, maxdepth >= 3);
 	}
 }
 
